@@ -222,7 +222,7 @@ fn gen_req(r: &mut Rng) -> String {
             let blob = rand_bytes(r, blob_len);
             let mut p = valid_full(r, &blob);
             let off = u64::from_be_bytes(p[120..128].try_into().unwrap()) as usize;
-            match r.below(14) {
+            match r.below(17) {
                 0 => { p[120..128].copy_from_slice(&(r.below(128)).to_be_bytes()); }                       // offset < 128
                 1 => { p[120..128].copy_from_slice(&(u64::MAX - r.below(40)).to_be_bytes()); }            // offset + 32 overflows
                 2 => { let pl = p.len() as u64; p[120..128].copy_from_slice(&(pl.wrapping_sub(32).wrapping_add(r.below(3)).wrapping_sub(1)).to_be_bytes()); } // length word straddles the end
@@ -230,8 +230,16 @@ fn gen_req(r: &mut Rng) -> String {
                 4 => { let rem = (p.len() - off - 32) as u64; p[off + 24..off + 32].copy_from_slice(&(rem + r.below(3)).wrapping_sub(1).to_be_bytes()); } // length = remaining ± 1
                 5 => { let n = r.below(p.len() as u64 + 1) as usize; p.truncate(n); }
                 6 => { p = { let n = r.below(260) as usize; rand_bytes(r, n) }; }
-                7 | 8 => { let i = 96 + r.below(24) as usize; p[i] = 1 + r.below(255) as u8; }             // non-zero upper bytes of the offset word (must be rejected)
-                9 | 10 => { let i = off + r.below(24) as usize; p[i] = 1 + r.below(255) as u8; }            // non-zero upper bytes of the length word (must be rejected)
+                // single-byte corruption at EVERY one of the 32 positions of the offset word / the length word: positions 0..28 leave
+                // the low bytes pointing inside the payload (the ABI-described slice then does not exist), 28..32 move the offset/length
+                7 | 8 => { let i = 96 + r.below(32) as usize; p[i] = p[i].wrapping_add(1 + r.below(255) as u8); }
+                9 | 10 => { let i = off + r.below(32) as usize; p[i] = p[i].wrapping_add(1 + r.below(255) as u8); }
+                // offset = k·2^32 + off, k·2^64 + off, k·2^(8j) + off: values >= 2^32 / >= 2^64 whose low bytes point inside the payload
+                11 | 12 => { let j = match r.below(3) { 0 => 27 - r.below(4) as usize, 1 => 23 - r.below(8) as usize, _ => r.below(28) as usize };
+                    p[96 + j] = 1 + r.below(255) as u8; if r.chance(1, 3) { let j2 = r.below(28) as usize; p[96 + j2] = 1 + r.below(255) as u8; } }
+                // the same for the length word
+                13 | 14 => { let j = match r.below(3) { 0 => 27 - r.below(4) as usize, 1 => 23 - r.below(8) as usize, _ => r.below(28) as usize };
+                    p[off + j] = 1 + r.below(255) as u8; if r.chance(1, 3) { let j2 = r.below(28) as usize; p[off + j2] = 1 + r.below(255) as u8; } }
                 _ => {}
             }
             format!("cl full {}", tohex(&p))
